@@ -341,6 +341,8 @@ impl SwiftField for Field32 {
     where
         Self: Sized,
     {
+        super::swift_utils::require_ascii(input, "Field 32")?;
+
         // Try to determine variant based on content
         // If it starts with 6 digits (date), it's A, C, or D
         // Otherwise it's B (currency + amount only)
